@@ -72,6 +72,7 @@ type Contract struct {
 	Trusted   string   // reason the body is not verified (e.g. reflection); contract is then an assumption
 	NoSafety  bool
 	Abstracted bool
+	NoEager   bool     // do not instantiate quantified hypotheses at the constants 0..10 (goal-directed instances only)
 	TailSize  int      // joins in loop-free function tails of up to this many blocks are not merged (default 10)
 	InlineCalls []string // callees (short names) expanded in place although they have a contract
 	Unpack    []string // pointer parameters whose pointee is held in registers between calls
@@ -140,6 +141,7 @@ type AtClause struct {
 	Callee  string
 	Nth     int
 	Loop    int    // "callee@Lk": every call to callee inside loop k (0: select by ordinal Nth)
+	Assume  bool   // "assume": the clause is taken as a hypothesis at the call (listed as an assumption), not proved
 	Rewrite string // variable name for "rewrite name := expr"
 	C       Clause
 }
@@ -194,7 +196,7 @@ type ContractSet struct {
 
 var keywords = map[string]bool{"spec": true, "global": true, "func": true, "assume": true, "props": true, "requires": true,
 	"ensures": true, "modifies": true, "inline": true, "loop": true, "lemma": true, "panics": true, "trusted": true,
-	"nosafety": true, "abstracted": true, "unpack": true, "inlinecalls": true, "tail": true, "pure": true, "uf": true, "specname": true, "split": true, "at": true, "after": true, "assumes": true, "small": true, "returns": true, "sets": true, "witness": true, "replay": true, "remainder": true, "sweep": true, "bound": true}
+	"nosafety": true, "abstracted": true, "unpack": true, "noeager": true, "inlinecalls": true, "tail": true, "pure": true, "uf": true, "specname": true, "split": true, "at": true, "after": true, "assumes": true, "small": true, "returns": true, "sets": true, "witness": true, "replay": true, "remainder": true, "sweep": true, "bound": true}
 
 var labelRe = regexp.MustCompile(`^\[([A-Za-z0-9_.\-]+)\]\s*`)
 
@@ -510,6 +512,8 @@ func parseContractFile(path string, cs *ContractSet) error {
 					return fmt.Errorf("%s:%d: tail <blocks>", path, l.line)
 				}
 				cur.TailSize = n
+			case "noeager":
+				cur.NoEager = true
 			case "unpack":
 				cur.Unpack = append(cur.Unpack, strings.Fields(rest)...)
 			case "inlinecalls":
@@ -568,6 +572,8 @@ func parseContractFile(path string, cs *ContractSet) error {
 				body := strings.TrimSpace(fs[3])
 				switch fs[2] {
 				case "assert":
+				case "assume":
+					ac.Assume = true
 				case "rewrite":
 					j := strings.Index(body, ":=")
 					if j < 0 {
@@ -576,7 +582,7 @@ func parseContractFile(path string, cs *ContractSet) error {
 					ac.Rewrite = strings.TrimSpace(body[:j])
 					body = strings.TrimSpace(body[j+2:])
 				default:
-					return fmt.Errorf("%s:%d: at call ... assert|rewrite", path, l.line)
+					return fmt.Errorf("%s:%d: at call ... assert|assume|rewrite", path, l.line)
 				}
 				cl, err := mkClause(body, l.line)
 				if err != nil {
